@@ -17,6 +17,9 @@
     is refused (a warning in `parse`) instead of being given other names; hidden members
     (leading `_`) are outside `IsNsStripped`;
   * the enumeration's own C name must carry an identifier prefix (`stripIdentifier … = ok n`);
+  * GType-registered enumerations (`C13_dump_member_keeps_header`, `C13_dump_merge_is_header`): the runtime
+    dump lists the scanned members under nicks derived from their names (`toNick`: `_` -> `-`), the scanned
+    names are pairwise different and contain no `-`; the numbers in the dump are arbitrary (`dv`);
   * constants: type names are resolved against the namespace with the scanner's own lookup
     (`lookupNode`: by stripped name, then by C type); `ResolvesTo*.direct` asks that no
     namespace node is named like the fundamental type; declared types and alias targets are
@@ -500,6 +503,37 @@ example :
 example :
     createConst [c!"Foo"] [c!"foo"] []
       ⟨c!"FOO_N", some c!"/src/foo.c", none, some 3, none, false, none⟩ = .ok none := by
+  decide +kernel
+
+/-! ## GType-registered enumerations: the runtime dump never overrides the header -/
+
+/-- a dump member whose normalised nick (`'-'` -> `'_'`) names a scanned member takes the value and the C
+identifier scanned from the header, whatever number the dump carries -/
+theorem C13_dump_member_keeps_header (prev : List Member) (d : DumpMember) (m : Member)
+    (h : lookupPrevious prev (nickName d.nick) = some m) :
+    mergeDumpMember prev d = ⟨nickName d.nick, m.value, m.cident⟩ := by
+  simp [mergeDumpMember, h]
+
+example : mergeDumpMember [⟨c!"async", 2147483648, c!"FOO_ASYNC"⟩, ⟨c!"no_buffer", 2147483649, c!"FOO_NO_BUFFER"⟩]
+    ⟨c!"FOO_NO_BUFFER", c!"no-buffer", -2147483647⟩ = ⟨c!"no_buffer", 2147483649, c!"FOO_NO_BUFFER"⟩ := by
+  decide +kernel
+
+/-- when the scanned member names are pairwise different and contain no `'-'`, and the dump lists the same
+members under the nicks derived from those names (with ANY numbers `dv`, e.g. the signed 32-bit images), the
+node that replaces the scanned enumeration has exactly the scanned members: names, values, identifiers, order -/
+theorem C13_dump_merge_is_header (prev : List Member) (dv : Member → Int)
+    (hd : prev.Pairwise (fun a b => a.name ≠ b.name)) (hn : ∀ m ∈ prev, '-' ∉ m.name) :
+    mergeDump prev (prev.map (fun m => ⟨m.cident, toNick m.name, dv m⟩)) = prev := by
+  unfold mergeDump
+  rw [List.map_map]
+  conv => rhs; rw [← List.map_id prev]
+  apply List.map_congr_left
+  intro m hm
+  simp only [Function.comp, mergeDumpMember, nickName_toNick m.name (hn m hm), lookupPrevious_mem hd hm, id]
+
+example : mergeDump [⟨c!"none", 0, c!"FOO_NONE"⟩, ⟨c!"no_buffer", 2147483649, c!"FOO_NO_BUFFER"⟩]
+    [⟨c!"FOO_NONE", c!"none", 0⟩, ⟨c!"FOO_NO_BUFFER", c!"no-buffer", -2147483647⟩]
+    = [⟨c!"none", 0, c!"FOO_NONE"⟩, ⟨c!"no_buffer", 2147483649, c!"FOO_NO_BUFFER"⟩] := by
   decide +kernel
 
 end GIVerif.EnumConst
